@@ -742,6 +742,9 @@ class Path(parent.Geometry):
         )
 
         cache = {}
+        # dump values computed before the last edit of the data
+        # so they are not handed to the copy as current
+        self._cache.verify()
         # try to copy the cache over to the new object
         try:
             # save dict keys before doing slow iteration
